@@ -66,7 +66,8 @@ def write_graph(graph, where="home"):
             f.write(mod_source(i, succ))
 
 
-SLIM = ("r", "ra", "ru", "ria", "b", "ba", "bu", "c", "rf", "re", "re2")
+SLIM = ("r", "ra", "ru", "ria", "b", "ba", "bu", "c", "rf", "re", "re2",
+        "rpa", "ms", "cm", "cma")
 
 
 def commands(graph, targets):
@@ -76,7 +77,8 @@ def commands(graph, targets):
         slim, targets = True, targets[1:]
     for t in targets:
         for c in ("r", "ra", "ru", "ri", "ria", "rp", "b", "ba", "bu", "c",
-                  "p", "pr", "rf", "re", "re2"):
+                  "p", "pr", "rf", "re", "re2", "rpa", "riu", "ms", "cm",
+                  "cma"):
             if slim and c not in SLIM:
                 continue
             cmds.append((c, t))
@@ -95,6 +97,16 @@ def command_text(graph, cmd):
         "ri": f"require M{t} import [pub_{t}]",
         "ria": f"require M{t} import [pub_{t} as q_{t}, bump_{t}]",
         "rp": f"require M{t} import [_p_{t}]",
+        # a private name stays private under a public alias; a public name
+        # may be bound under any alias
+        "rpa": f"require M{t} import [_p_{t} as peek_{t}]",
+        "riu": f"require M{t} import [pub_{t} as _u_{t}]",
+        # the module object belongs to the importer that required it:
+        # writing to it must not show through any other binding
+        "ms": f"require M{t}; M{t}->pub_{t} = 999; M{t}->extra = 1; 1",
+        "cm": f"[M{t}->pub_{t}, M{t}->extra, sorted([m for m in M{t}])]",
+        "cma": f"require M{t} as AL{t}; "
+               f"[AL{t}->pub_{t}, AL{t}->extra, sorted([m for m in AL{t}])]",
         "b": f"M{t}->bump_{t}()",
         "ba": f"AL{t}->bump_{t}()",
         "bu": f"bump_{t}()",
@@ -122,6 +134,7 @@ class Model:
         self.counters = {}
         self.out = ""
         self.names = {}      # importer scope: name -> tag
+        self.written = set() # module-object names the importer wrote to
 
     def copy(self):
         m = Model(self.graph)
@@ -129,6 +142,7 @@ class Model:
         m.counters = dict(self.counters)
         m.out = self.out
         m.names = dict(self.names)
+        m.written = set(self.written)
         return m
 
     def load(self, i, stack):
@@ -148,6 +162,10 @@ class Model:
 
 
 ERR = ["rt", "'ERROR'"]
+
+
+def show_names(names):
+    return "[" + ", ".join("'%s'" % n for n in names) + "]"
 
 
 class Importer(e4.Explorer):
@@ -194,7 +212,7 @@ class Importer(e4.Explorer):
                     added.add("probe_importer")
                 m.names["probe_importer"] = "val"
                 resp = ["value", "1"]
-            elif c in ("r", "ra", "ru", "ri", "ria", "rp"):
+            elif c in ("r", "ra", "ru", "ri", "ria", "rp", "rpa", "riu"):
                 m.load(t, [])
                 if c == "r":
                     new = {f"M{t}": ("mod", t)}
@@ -206,12 +224,15 @@ class Importer(e4.Explorer):
                     new = {f"pub_{t}": ("sym", t)}
                 elif c == "ria":
                     new = {f"q_{t}": ("sym", t), f"bump_{t}": ("sym", t)}
+                elif c == "riu":
+                    new = {f"_u_{t}": ("sym", t)}
                 else:
                     new = {}
                 for n, tag in new.items():
                     if n not in m.names:
                         added.add(n)
                     m.names[n] = tag
+                    m.written.discard(n)      # a require binds a new object
                 resp = ["value", "NULL"]
             elif c in ("b", "c", "p", "pr", "via"):
                 if m.names.get(f"M{t}") != ("mod", t):
@@ -228,6 +249,27 @@ class Importer(e4.Explorer):
                     j = g[t][0]
                     m.load(j, [])
                     resp = ["value", str(m.bump(j))]
+            elif c in ("ms", "cm", "cma"):
+                n = f"AL{t}" if c == "cma" else f"M{t}"
+                if c in ("ms", "cma"):
+                    m.load(t, [])
+                    if n not in m.names:
+                        added.add(n)
+                    m.names[n] = ("mod", t)
+                    m.written.discard(n)
+                if m.names.get(n) != ("mod", t):
+                    resp = ERR
+                elif c == "ms":
+                    m.written.add(n)
+                    resp = ["value", "1"]
+                else:
+                    pubs = sorted(public_names(t, g[t]))
+                    if n in m.written:
+                        resp = ["value", "[999, 1, %s]" % show_names(
+                            sorted(pubs + ["extra"]))]
+                    else:
+                        resp = ["value", "[%d, NULL, %s]" % (
+                            t * 10 + 5, show_names(pubs))]
             elif c == "ba":
                 resp = ["value", str(m.bump(t))] \
                     if m.names.get(f"AL{t}") == ("mod", t) else ERR
@@ -371,8 +413,8 @@ def main(tier, seed):
               f"on 3 modules (self loops " +
               ("included" if tier == "thorough" else "excluded on 3") +
               f"), chain/cycle/diamond/fan-out/fan-in/tail+cycle families "
-              f"on 4 and 5 modules; importer alphabet = 15 commands per "
-              f"target module (6 import forms, calls through module / "
+              f"on 4 and 5 modules; importer alphabet = {len(commands(((),), [0])) - 1} commands per "
+              f"target module (8 import forms incl. private-under-alias, writes to a module object then reads through every other binding, calls through module / "
               f"alias / unqualified name, private member, importer-variable "
               f"probe, require inside a function, require through a "
               f"persistent and a fresh caller-supplied environment) + "
